@@ -39,6 +39,9 @@ type Cfg struct {
 	// IssetSwallow: isset(exec("/swf.jet", ctx).zzq) / isset(includeIfExists("/swf.jet", ctx).zzq) where /swf.jet fails at run time:
 	// isset swallows the failure and everything (context, scopes, content) is as before.
 	IssetSwallow bool
+	// PanicFuncs: failing actions inside try may call panicstr() / panicval(), functions (ExtraVars) that panic with a value
+	// that is no error (a string, a Stringer).
+	PanicFuncs bool
 }
 
 type blockInfo struct {
@@ -290,6 +293,11 @@ func (g *gen) failStmt() Node {
 		g.feat["fail-in-writer-command"] = true
 		w := g.cfg.Writers[g.r.Intn(len(g.cfg.Writers))]
 		return &RawFail{Src: fmt.Sprintf(`{{ %s: "ok%d", nosuch%d }}`, w, g.n, g.n), Positioned: true}
+	}
+	if g.inTry > 0 && g.cfg.PanicFuncs && g.r.Intn(5) == 0 {
+		// a called function panicking with a value that is no error: a failure of the try body like any other
+		g.feat["fail-panic-with-non-error-value"] = true
+		return &Print{E: Opaque{Src: []string{"panicstr()", "panicval()"}[g.r.Intn(2)], Fails: true}}
 	}
 	if g.inTry > 0 && g.r.Intn(5) == 0 {
 		// a Go run-time error (integer division by zero) raised by the evaluation itself: inside a try it is a failure of
@@ -758,6 +766,11 @@ func (g *gen) tryStmt(depth int) *Try {
 	case 1:
 		t.HasCatch = true
 		t.CatchVar = g.tok("e")
+		if g.r.Intn(5) == 0 {
+			// a catch clause with a variable and an empty body: the failure is swallowed, nothing else happens
+			g.feat["catch-var-empty-body"] = true
+			return t
+		}
 		g.push()
 		g.declare(t.CatchVar, KMap)
 		t.Catch = append([]Node{&Text{S: "<catch:"}, &Print{E: Isset{t.CatchVar}}}, append(g.list(depth+1), &Text{S: ">"})...)
@@ -908,6 +921,13 @@ func (g *gen) blockDef(b blockInfo, depth int) *BlockDef {
 	defer func() { g.blocks = saveBlocks }()
 	leaveB := g.enter("block")
 	defer leaveB()
+	if !b.usesContent && g.r.Intn(10) == 0 {
+		// an exactly empty definition is a definition like any other (the usual way to blank a region of a layout)
+		g.feat["empty-block-body"] = true
+		g.inBlock--
+		g.frames, g.ctx = saveFrames, saveCtx
+		return d
+	}
 	body := []Node{&Text{S: "(" + g.tok("B") + ":"}}
 	for _, p := range b.params {
 		body = append(body, &Text{S: p.Name + "="}, &Print{E: Var{p.Name}}, &Text{S: ";"})
